@@ -247,25 +247,57 @@ type namedU struct {
 	C []uint
 }
 
+// two distinct types that print the same ("main.T"): declared in two function scopes
+func sameNameA() interface{} {
+	type T struct{ A int32 }
+	return []interface{}{T{1}, []T{{1}, {2}}, [3]T{}, &T{5}}
+}
+
+func sameNameB() interface{} {
+	type T struct {
+		A, B, C int64
+		D       [4]int16
+	}
+	return []interface{}{T{}, []T{{}, {}}, [3]T{}, &T{}}
+}
+
+// an acyclic singly linked list of n nodes (nesting depth 2n for a walker that follows pointers)
+type listNode struct {
+	Next *listNode
+	V    int64
+}
+
+func linkedList(n int) *listNode {
+	var head *listNode
+	for i := 0; i < n; i++ {
+		head = &listNode{head, int64(i)}
+	}
+	return head
+}
+
 var namedValues = map[string]interface{}{
-	"nil":         nil,
-	"uint":        uint(1),
-	"uintptr":     uintptr(1),
-	"struct-uint": struct{ A uint }{1},
-	"named-u":     namedU{1, 2, []uint{3, 4}},
-	"int":         int(3),
-	"bool":        true,
-	"string":      "hello",
-	"empty-str":   "",
-	"nil-slice":   []int32(nil),
-	"empty-slice": []int32{},
-	"slice3":      []int32{1, 2, 3},
-	"array3":      [3]int16{1, 2, 3},
-	"nil-ptr":     (*int64)(nil),
-	"ptr":         new(int64),
-	"nil-map":     map[string]int(nil),
-	"map":         map[string]int8{"a": 1, "bcd": 2},
-	"iface-field": struct{ X, Y interface{} }{nil, int8(3)},
+	"same-name-a":      sameNameA(),
+	"same-name-b":      sameNameB(),
+	"linked-list-100":  linkedList(100),
+	"linked-list-6000": linkedList(6000),
+	"nil":              nil,
+	"uint":             uint(1),
+	"uintptr":          uintptr(1),
+	"struct-uint":      struct{ A uint }{1},
+	"named-u":          namedU{1, 2, []uint{3, 4}},
+	"int":              int(3),
+	"bool":             true,
+	"string":           "hello",
+	"empty-str":        "",
+	"nil-slice":        []int32(nil),
+	"empty-slice":      []int32{},
+	"slice3":           []int32{1, 2, 3},
+	"array3":           [3]int16{1, 2, 3},
+	"nil-ptr":          (*int64)(nil),
+	"ptr":              new(int64),
+	"nil-map":          map[string]int(nil),
+	"map":              map[string]int8{"a": 1, "bcd": 2},
+	"iface-field":      struct{ X, Y interface{} }{nil, int8(3)},
 	"nested": []struct {
 		P *int32
 		S string
